@@ -502,7 +502,19 @@ func worker(args []string) {
 		}
 	}
 	if len(c.R.Inconclusive) == 0 {
-		p.Run(c)
+		func() {
+			defer func() {
+				if r := recover(); r != nil {
+					st := string(debug.Stack())
+					if len(st) > 1200 {
+						st = st[:1200]
+					}
+					fmt.Fprintf(os.Stderr, "HARNESS PANIC in %s worker %d: %v\n%s\n", id, shard, r, st)
+					c.Inconclusive(fmt.Sprintf("harness panic in worker %d (what it had found so far is kept): %v", shard, r))
+				}
+			}()
+			p.Run(c)
+		}()
 	}
 	b, _ := json.Marshal(c.R)
 	os.WriteFile(filepath.Join(dir, "result.json"), b, 0644)
